@@ -6,7 +6,9 @@ Import ListNotations.
 Open Scope Z_scope.
 
 Definition T0 : Z := 1700000000000000.
-Definition cfg7 (wal : bool) (ms qc : nat) : config := {| max_size := ms; queue_cap := qc; wal_on := wal; fix_drain := false |}.
+Definition cfg7 (wal : bool) (ms qc : nat) : config := {| max_size := ms; queue_cap := qc; wal_on := wal; fix_drain := true |}.
+(* the Close before 2ed39c6 *)
+Definition cfg7_old (wal : bool) (ms qc : nat) : config := {| max_size := ms; queue_cap := qc; wal_on := wal; fix_drain := false |}.
 Definition two_hours : batch :=
   {| b_cols := [(time_name, {| c_ty := TInt; c_vals := [VZ T0; VZ (T0 + Hreal)] |}); (vname, {| c_ty := TInt; c_vals := [VZ 1; VZ 2] |})]; b_valid := [] |}.
 
@@ -14,22 +16,22 @@ Notation st7 := (st N batch (list N) (Z * batch)%type) (only parsing).
 Definition all_lost (s : st7) : Prop :=
   accepted s <> [] /\ stored_items s = [] /\ volatile_items s = [] /\ wal_items s = [].
 
-(* (i) graceful shutdown: hook wal-purge (PurgeAll) runs before component arrow-buffer (Close);
-   the final flush fails -> the acknowledged batch is nowhere *)
+(* (i) OLD shutdown order (before f1d141d): hook wal-purge (PurgeAll) runs before component
+   arrow-buffer (Close); the final flush fails -> the acknowledged batch is nowhere *)
 Definition run_shutdown_purge : list (label N batch) :=
   [LWrite 1%N (row1 T0 1) true; LRotate; LPurgeAll; LCloseBegin; LCloseWait; LCloseExtract 1%N; LDone 0 (OFail []); LCloseEnd].
 Lemma shutdown_purge_refuted :
   exists s, brun Hreal thr_real (cfg7 true 100 8) binit run_shutdown_purge = Some s /\ phase s = PClosed /\ all_lost s.
 Proof. eexists. split; [vm_compute; reflexivity|]. vm_compute. repeat split; discriminate. Qed.
 
-(* (i') the same order without any storage failure: a task still queued when Close runs is
-   abandoned (C03) and its WAL copy was already purged; after the restart nothing brings it back *)
+(* (i') OLD variants of both fixes together: the purge hook first and the Close that abandons a
+   queued task (before 2ed39c6), no storage failure at all; after the restart nothing brings it back *)
 Definition run_shutdown_queue : list (label N batch) :=
   [LWrite 1%N (row1 T0 1) true; LRotate; LEnqueue 0; LDequeue;
    LWrite 1%N (row1 (T0 + 1) 2) true; LRotate; LEnqueue 1;
    LPurgeAll; LCloseBegin; LDone 0 OOk; LCloseWait; LCloseEnd; LRestart].
 Lemma shutdown_queue_refuted :
-  exists s, brun Hreal thr_real (cfg7 true 1 8) binit run_shutdown_queue = Some s /\
+  exists s, brun Hreal thr_real (cfg7_old true 1 8) binit run_shutdown_queue = Some s /\
     List.length (accepted s) = 2%nat /\ List.length (stored_items s) = 1%nat /\ volatile_items s = [] /\ wal_items s = [].
 Proof. eexists. split; [vm_compute; reflexivity|]. vm_compute. repeat split. Qed.
 
@@ -67,19 +69,51 @@ Lemma replay_dup_refuted :
     List.length (accepted s) = 2%nat /\ map (@it_id N batch) (stored_items s) = [0; 0; 1]%nat.
 Proof. eexists. split; [vm_compute; reflexivity|]. vm_compute. repeat split. Qed.
 
-(* (v) the maintenance tick purges files older than safeAge BEFORE it replays *)
+(* (v) OLD tick (before 8a1c0f1): the maintenance tick purges files older than safeAge BEFORE it replays *)
 Definition run_purge_before_replay : list (label N batch) :=
   [LWrite 1%N (row1 T0 1) true; LRotate; LEnqueue 0; LDequeue; LDone 0 (OFail []); LAgeFile 0; LAgeFile 0; LPurgeOld; LResetFlag].
 Lemma purge_before_replay_refuted :
   exists s, brun Hreal thr_real (cfg7 true 1 8) binit run_purge_before_replay = Some s /\ flush_failed s = false /\ all_lost s.
 Proof. eexists. split; [vm_compute; reflexivity|]. vm_compute. repeat split; discriminate. Qed.
 
-(* (vi) the replay deletes the file once the rows are re-buffered; the outage persists *)
+(* (vi) the replay deletes the file while the re-buffered rows are only QUEUED for the asynchronous
+   worker (re-buffering reached max_size): FlushReplayed = FlushAll (7b9e05e) flushes the shard
+   buffers, finds none, reports no error; the outage persists and the worker's flush fails.
+   Still a run of the code as it is. *)
 Definition run_replay_then_fail : list (label N batch) :=
   [LWrite 1%N (row1 T0 1) true; LRotate; LEnqueue 0; LDequeue; LDone 0 (OFail []);
    LAgeFile 0; LReplayStart 0; LReplayEntry; LReplayFileDone; LResetFlag; LEnqueue 0; LDequeue; LDone 0 (OFail [])].
 Lemma replay_then_fail_refuted :
   exists s, brun Hreal thr_real (cfg7 true 1 8) binit run_replay_then_fail = Some s /\ all_lost s.
+Proof. eexists. split; [vm_compute; reflexivity|]. vm_compute. repeat split; discriminate. Qed.
+
+(* (vii) the tick resets the failure flag although the file holding the failed rows was skipped
+   (younger than MinFileAge, or the active file); the next normal-mode tick purges it by age *)
+Definition run_reset_after_skip : list (label N batch) :=
+  [LWrite 1%N (row1 T0 1) true; LRotate; LEnqueue 0; LDequeue; LDone 0 (OFail []);
+   LPurgeOld; LResetFlag;            (* tick 1: the file is Young, nothing is replayed, the flag is reset *)
+   LAgeFile 0; LAgeFile 0; LPurgeOld (* later, normal mode: PurgeOlderThan(safeAge) *)].
+Lemma reset_after_skip_refuted :
+  exists s, brun Hreal thr_real (cfg7 true 1 8) binit run_reset_after_skip = Some s /\ flush_failed s = false /\ all_lost s.
+Proof. eexists. split; [vm_compute; reflexivity|]. vm_compute. repeat split; discriminate. Qed.
+
+(* (vi-old) before 7b9e05e the file was deleted although the re-buffered rows were still in the shard
+   buffer; the next flush fails *)
+Definition run_replay_buffered_old : list (label N batch) :=
+  [LWrite 1%N (row1 T0 1) true; LRotate; LFlushAllExtract 1%N; LDone 0 (OFail []);
+   LAgeFile 0; LReplayStart 0; LReplayEntry; LReplayFileDone; LResetFlag; LFlushAllExtract 1%N; LDone 0 (OFail [])].
+Lemma replay_buffered_old_refuted :
+  exists s, brun Hreal thr_real (cfg7 true 100 8) binit run_replay_buffered_old = Some s /\ all_lost s.
+Proof. eexists. split; [vm_compute; reflexivity|]. vm_compute. repeat split; discriminate. Qed.
+
+(* (vii-b) the code as it is: FlushReplayed fails, the file is kept - and the flag is reset all the
+   same; nothing replays the file again and the normal-mode purge removes it once it is old *)
+Definition run_reset_after_keep : list (label N batch) :=
+  [LWrite 1%N (row1 T0 1) true; LRotate; LFlushAllExtract 1%N; LDone 0 (OFail []);
+   LAgeFile 0; LReplayStart 0; LReplayEntry; LFlushAllExtract 1%N; LDone 0 (OFail []); LReplayFileKeep 0 Mid; LResetFlag;
+   LAgeFile 0; LPurgeOld].
+Lemma reset_after_keep_refuted :
+  exists s, brun Hreal thr_real (cfg7 true 100 8) binit run_reset_after_keep = Some s /\ flush_failed s = false /\ all_lost s.
 Proof. eexists. split; [vm_compute; reflexivity|]. vm_compute. repeat split; discriminate. Qed.
 
 (* non-vacuity: a run that satisfies both guards at every step, contains a storage failure, a
@@ -88,7 +122,7 @@ Definition run_good : list (label N batch) :=
   [LWrite 1%N (row1 T0 1) true; LRotate; LEnqueue 0; LDequeue; LDone 0 (OFail []);
    LAgeFile 0; LReplayStart 0; LReplayEntry; LReplayFileDone; LResetFlag; LEnqueue 0; LDequeue; LDone 0 OOk].
 
-Notation breachBO H thr := (reachBO N.eqb bytes_eqb column_signature batch_rows (bflush H thr)).
+Notation breachBO H thr := (reachBO N.eqb bytes_eqb buffer_schema_key batch_rows (bflush H thr)).
 Notation bbenign H thr := (@benign N batch (list N) (Z * batch) (bflush H thr)).
 
 Ltac indisj := solve [ reflexivity | assumption | left; indisj | right; indisj | split; indisj ].
@@ -108,8 +142,33 @@ Lemma good_run_guarded :
     List.length (accepted s) = 1%nat /\ List.length (stored_items s) = 1%nat /\ volatile_items s = [] /\ wal_items s = [].
 Proof.
   eexists. split; [vm_compute; reflexivity|]. split.
-  - eapply (guarded_run_reach N.eqb bytes_eqb column_signature batch_rows (bflush Hreal thr_real) _ run_good binit); [constructor| |vm_compute; reflexivity].
+  - eapply (guarded_run_reach N.eqb bytes_eqb buffer_schema_key batch_rows (bflush Hreal thr_real) _ run_good binit); [constructor| |vm_compute; reflexivity].
     unfold run_good.
     do 13 gstep. exact I.
   - vm_compute. repeat split.
+Qed.
+
+
+(* After a complete, failure-free Close (the code as it is) purging the whole WAL is safe: every
+   WAL entry is already stored, i.e. the purge step satisfies the guard [benign]. *)
+Lemma shutdown_purge_safe H thr : 0 < H -> forall cfg ls (s : st7),
+  brun H thr cfg binit ls = Some s ->
+  forallb (fun l : label N batch => no_replay l && outcome_ok l) ls = true ->
+  fix_drain cfg = true -> phase s = PClosed -> clean s = true -> inputs_ok s ->
+  (forall t r, In (t, r) (dropped s) -> r <> DQueueFull) ->
+  bbenign H thr cfg s LPurgeAll /\ Permutation (accepted s) (stored_items s).
+Proof.
+  intros HH cfg ls s Hr Hq Hfix Hph Hcl Hin Hnq.
+  destruct (flush_close_stores_all H thr HH cfg ls s Hr Hq Hfix Hph Hcl Hin Hnq) as [_ [_ [_ [_ [Hp _]]]]].
+  split; [|exact Hp].
+  assert (Hq1 : forallb (@no_replay N batch) ls = true).
+  { clear -Hq. induction ls; cbn in *; [reflexivity|]. apply andb_true_iff in Hq. destruct Hq as [Ha Hb]. apply andb_true_iff in Ha. rewrite (proj1 Ha). cbn. auto. }
+  assert (Hro : reachO N.eqb bytes_eqb buffer_schema_key batch_rows (bflush H thr) cfg s).
+  { eapply (run_reachO N.eqb bytes_eqb buffer_schema_key batch_rows (bflush H thr)); [constructor|exact Hq1|exact Hr]. }
+  destruct (once_reach N.eqb bytes_eqb buffer_schema_key batch_rows (bflush H thr) N_eqb_spec' N.eq_dec batch_dec cfg s Hro) as [_ [Hk _]].
+  unfold benign. split; [intros x []|]. split; [|reflexivity].
+  intros x Hx. left. cbn [f_waldel] in Hx.
+  eapply Permutation_in; [exact Hp|]. apply Hk. unfold somewhere, wal_items.
+  apply in_or_app. right. apply in_or_app. right. apply in_or_app. left.
+  apply in_app_iff in Hx. destruct Hx as [Hx|Hx]; apply in_or_app; [left; exact Hx|right; apply in_or_app; left; exact Hx].
 Qed.
